@@ -50,7 +50,7 @@ def repo_includes():
 
 CLANG_IR = ['clang++-14', '-std=c++11', '-O1', '-fno-exceptions', '-fno-vectorize', '-fno-slp-vectorize',
             '-fno-unroll-loops', '-fno-threadsafe-statics', '-fno-builtin', '-fno-pic', '-fno-jump-tables', '-nostdinc++', '-w',
-            '-S', '-emit-llvm', '-DVSTD=1']
+            '-S', '-emit-llvm', '-DVSTD=1', '-DNDEBUG']   # -DNDEBUG: the real build is RelWithDebInfo
 
 # ------------------------------------------------------------------ process helpers
 class Timeout(Exception):
@@ -401,6 +401,9 @@ def native_lib_archive(dirs, sanitize, scratch):
             full = rpath(dd)
             for f in sorted(os.listdir(full)):
                 if f.endswith('.cc') or f.endswith('.c'):
+                    txt = open(os.path.join(full, f), errors='replace').read()
+                    if re.search(r'\bint\s+main\s*\(', txt):
+                        continue      # test/benchmark programs living in the library directory
                     srcs.append(os.path.join(full, f))
         san = SAN if sanitize else []
         def one(a):
@@ -409,7 +412,7 @@ def native_lib_archive(dirs, sanitize, scratch):
             if sfile.endswith('.c'):
                 cmd = ['gcc', '-c', c_std(), '-DNDEBUG', '-w', '-g', '-O0'] + repo_includes() + san + [sfile, '-o', o]
             else:
-                cmd = ['g++', '-c', '-std=c++11', '-w', '-g', '-O0'] + repo_includes() + san + [sfile, '-o', o]
+                cmd = ['g++', '-c', '-std=c++11', '-w', '-g', '-O0', '-DNDEBUG'] + repo_includes() + san + [sfile, '-o', o]
             rc, out, _, _ = run(cmd)
             if rc != 0:
                 raise Fault('native library build failed on %s:\n%s' % (sfile, out[-2000:]))
@@ -440,7 +443,7 @@ def build_native_real(h, tier, wd, extra_defs, sanitize):
             objs.append(o)
         rc, out, _, _ = run(['gcc', '-no-pie', '-Wl,--unresolved-symbols=ignore-all'] + san + objs + ['-o', exe, '-lm'])
     else:
-        cxxflags = ['-std=c++11', '-w', '-g', '-O0'] + repo_includes() + ['-I' + LIB, '-I' + os.path.dirname(vpath(h.wrapper))] + h.native_cflags
+        cxxflags = ['-std=c++11', '-w', '-g', '-O0', '-DNDEBUG'] + repo_includes() + ['-I' + LIB, '-I' + os.path.dirname(vpath(h.wrapper))] + h.native_cflags
         srcs = [rpath(s) for s in ((h.native_srcs if h.native_srcs is not None else h.repo_srcs) if not h.native_lib else [])] + [vpath(h.wrapper)] + [vpath(x) for x in h.native_extra]
         libs = [native_lib_archive(h.native_lib, sanitize, os.path.dirname(wd))] if h.native_lib else []
         def one(a):
@@ -725,6 +728,9 @@ def run_property(prop, harnesses, tier, level_text, extra_assumptions=(), only=N
     scratch = os.environ.get('VERIF_SCRATCH') or tempfile.mkdtemp(prefix='verif.%s.' % prop, dir='/var/tmp')
     os.makedirs(scratch, exist_ok=True)
     hs = [h for h in harnesses if tier in h.tiers and (only is None or h.name in only)]
+    if not hs:
+        print('MACHINERY-FAULT property=%s: no harness selected (tier=%s only=%s)' % (prop, tier, sorted(only) if only else None))
+        return 2
     results = []
     jobs = jobs or int(os.environ.get('VERIF_JOBS', '6'))
     try:
